@@ -1,7 +1,7 @@
 """C09 — At most one event per replaceable address."""
 from ._store import run_store
 
-THEOREMS = []
+THEOREMS = ['classify', 'one_per_address', 'store_older', 'frame', 'step_addrUniq']
 
 
 def run():
